@@ -167,6 +167,32 @@ class C19(Prop):
         cfg['run_start'] = True
         nw = len(cfg['watchers'])
         ops = []
+        if rng.random() < 0.12 and nw >= 2:
+            # a daemon built from a configuration file: a watcher re-created
+            # by reloadconfig (its section changed) keeps its place in the
+            # priority order of the next start of everything
+            cfg['from_ini'] = True
+            cfg['warmup_delay'] = rng.choice([0, 1])
+            for i, wc in enumerate(cfg['watchers']):
+                wc['opts']['warmup_delay'] = rng.choice([0, 0, 1])
+                wc['opts']['priority'] = rng.choice([0, 5, 10, 20, 30])
+                wc['opts'].pop('singleton', None)
+                wc['opts']['numprocesses'] = max(1, wc['opts']['numprocesses'])
+            best = max(range(nw), key=lambda i: (
+                cfg['watchers'][i]['opts']['priority'], -i))
+            target = rng.choice([best, best, rng.randrange(nw)])
+            ops.extend([
+                {'op': 'editini', 'w': target,
+                 'env': {'X': str(rng.randrange(100))}, 'place': 'now'},
+                {'op': 'req', 'cmd': 'reloadconfig', 'w': None, 'props': {},
+                 'waiting': True, 'place': 'now', 'sync': True},
+                {'op': 'req', 'cmd': 'stop', 'w': None, 'props': {},
+                 'waiting': True, 'place': 'now', 'sync': True},
+                {'op': 'req', 'cmd': 'start', 'w': None, 'props': {},
+                 'waiting': True, 'place': 'now', 'sync': True,
+                 'c19_window': True},
+                {'op': 'quiet', 'checks': 1}])
+            return {'cfg': cfg, 'ops': ops}
         if rng.random() < 0.25:
             # "started together" also when one of them is already running but
             # short of workers (respawn off, a worker lost): the start fills
